@@ -118,7 +118,8 @@ func handleColgroup(element *utils.HTMLNode, box Box, _ URLResolver, _ string) [
 			}
 		}
 		if !hasCol {
-			children := make([]Box, box.span())
+			// (not box.span(): the box may already hold ::before / ::after content, removed later)
+			children := make([]Box, integerAttribute(element.Get("span"), 1, 1000))
 			for i := range children {
 				children[i] = TableColumnBoxAnonymousFrom(box, nil)
 			}
